@@ -220,6 +220,7 @@ class SPSCRingBuffer {
 
     // Construct element in-place
     new (elementAt(currentTail)) T(std::move(item));
+    DISPENSO_VERIF_POINT(::dispenso::verif::kSpscPushBeforePublish);
     tail_.store(nextTail, std::memory_order_release);
     return true;
   }
@@ -249,6 +250,7 @@ class SPSCRingBuffer {
 
     // Construct element in-place via copy
     new (elementAt(currentTail)) T(item);
+    DISPENSO_VERIF_POINT(::dispenso::verif::kSpscPushBeforePublish);
     tail_.store(nextTail, std::memory_order_release);
     return true;
   }
@@ -286,6 +288,7 @@ class SPSCRingBuffer {
 
     // Construct element in-place
     new (elementAt(currentTail)) T(std::forward<Args>(args)...);
+    DISPENSO_VERIF_POINT(::dispenso::verif::kSpscPushBeforePublish);
     tail_.store(nextTail, std::memory_order_release);
     return true;
   }
@@ -325,6 +328,7 @@ class SPSCRingBuffer {
     T* elem = elementAt(currentHead);
     item = std::move(*elem);
     elem->~T();
+    DISPENSO_VERIF_POINT(::dispenso::verif::kSpscPopBeforePublish);
     head_.store(increment(currentHead), std::memory_order_release);
     return true;
   }
@@ -366,6 +370,7 @@ class SPSCRingBuffer {
     T* elem = elementAt(currentHead);
     OpResult<T> result(std::move(*elem));
     elem->~T();
+    DISPENSO_VERIF_POINT(::dispenso::verif::kSpscPopBeforePublish);
     head_.store(increment(currentHead), std::memory_order_release);
     return result;
   }
@@ -406,6 +411,7 @@ class SPSCRingBuffer {
     T* elem = elementAt(currentHead);
     new (storage) T(std::move(*elem));
     elem->~T();
+    DISPENSO_VERIF_POINT(::dispenso::verif::kSpscPopBeforePublish);
     head_.store(increment(currentHead), std::memory_order_release);
     return true;
   }
@@ -462,6 +468,7 @@ class SPSCRingBuffer {
     }
 
     if (count > 0) {
+      DISPENSO_VERIF_POINT(::dispenso::verif::kSpscPushBeforePublish);
       tail_.store(tailPos, std::memory_order_release);
     }
     return count;
@@ -520,6 +527,7 @@ class SPSCRingBuffer {
     }
 
     if (count > 0) {
+      DISPENSO_VERIF_POINT(::dispenso::verif::kSpscPopBeforePublish);
       head_.store(headPos, std::memory_order_release);
     }
     return count;
